@@ -3,7 +3,7 @@ import ast
 
 from .. import nf
 from ..nf import Poly, Tup, Const, Slice, NONE, TRUE, FALSE
-from ..model import AnalysisError
+from ..model import AnalysisError, dotted
 from ..rules import run as analyse, returns, fmt, is_app, S, C, pair, quad, conds_str, root_sym, identity_holds
 from . import extent_rules as X
 
@@ -534,6 +534,52 @@ def slice_count_rule(chk, repo, clause):
         chk.ob(clause, 'D-sum', f.key, f'one slice per field [{conds_str(p)[:60]}]', ok, det, f.loc(p.node))
 
 
+def _loop_exit_is_full_scan(repo, fd):
+    """The grouping written as a loop that merges until nothing is left to merge ends correctly only when the loop's exit
+    test is the outcome of a scan over *all* pairs of groups (`combinations(range(len(..)), 2)` - directly or in a helper
+    that looks for the first intersecting pair).  A loop that runs until a work list is empty sets groups aside after one
+    pass: one that grew afterwards is never compared with them again.  -> None (exit fed by a full scan; the rest is not
+    decided here) / False."""
+    def scans_all_pairs(fn_node):
+        has_comb = has_int = False
+        for n in ast.walk(fn_node):
+            if isinstance(n, ast.Call):
+                d = dotted(n.func) or ''
+                if d.split('.')[-1] == 'combinations' and len(n.args) == 2 and isinstance(n.args[1], ast.Constant) and n.args[1].value == 2:
+                    has_comb = True
+                if d.split('.')[-1] in ('intersect', '_overlap'):
+                    has_int = True
+        return has_comb and has_int
+    mod = fd.module
+    whiles = [n for n in ast.walk(fd.node) if isinstance(n, ast.While)]
+    if not whiles:
+        return None
+    for w in whiles:
+        if not any(isinstance(n, ast.Call) and isinstance(n.func, ast.Attribute) and n.func.attr in ('extend', 'append') for n in ast.walk(w)):
+            continue
+        names = {n.id for n in ast.walk(w.test) if isinstance(n, ast.Name)}
+        fed = False
+        for n in ast.walk(fd.node):
+            if isinstance(n, (ast.Assign, ast.NamedExpr)):
+                tgts = n.targets if isinstance(n, ast.Assign) else [n.target]
+                tnames = {x.id for t in tgts for x in ast.walk(t) if isinstance(x, ast.Name)}
+                if not (tnames & names):
+                    continue
+                for c in ast.walk(n.value):
+                    if isinstance(c, ast.Call):
+                        d = dotted(c.func) or ''
+                        callee = mod.functions.get(d.split('.')[-1]) if d else None
+                        if callee is not None and scans_all_pairs(callee.node):
+                            fed = True
+                if scans_all_pairs(n.value):
+                    fed = True
+        if scans_all_pairs(w.test):
+            fed = True
+        if not fed:
+            return False
+    return None
+
+
 def _union_of_extents(evs, st):
     """the extent stored for the merged group, when it is written as (min, max, min, max) of the two extents that were
     found to intersect -> (bool, detail) or None when the stored value is not of that form"""
@@ -821,11 +867,13 @@ def disjoint_rules(chk, repo):
                     if any(e.kind == 'write' and e.data.get('how') in ('method:extend',) for e in evs_b):
                         body_states.append((p, evs_b))
         if body_states:
-            ok_rec = None
+            ok_rec = _loop_exit_is_full_scan(repo, fd)
     chk.ob('C06-f', 'structural', fd.key, 'an intersecting pair is merged and the scan restarts', ok_rec,
            'return inside the pair loop is the recursive call guarded by intersect(...)' if ok_rec else
            ('the merge restarts the scan; how the touching pair is selected is not a branch condition (undecided)' if ok_rec is None else
-            'the pair loop does not restart after merging an intersecting pair'), fd.loc())
+            ('groups are set aside by a loop whose exit is not the outcome of a scan over all pairs: a group that has grown is not '
+             'tested again against the groups already set aside' if body_states else
+             'the pair loop does not restart after merging an intersecting pair')), fd.loc())
     # the merged group's extent must be recomputed from the group *after* the new members joined it
     ok_ord, n_ord, det_ord = True, 0, ''
     for p, evs in [(p, p.events) for p in inloop] + body_states:
